@@ -1,6 +1,7 @@
 package abci
 
 import (
+	"reflect"
 	"encoding/hex"
 	"encoding/json"
 	"fmt"
@@ -391,6 +392,18 @@ func TestC43(t *testing.T) {
 					c.Label("claim-expired-before-export")
 				}
 			}
+			// in worlds where stake-weighted rewards are active governance has, half of the time, raised the weighting ceiling
+			// above its floor (a parameter pair whose defaults coincide) before the export
+			if _, rscal := w.Spec.Features[codec.RSCALKey]; rscal && rapid.Bool().Draw(rt, "ceilingRaised") {
+				val, _ := app.Codec().MarshalJSON(int64(rapid.SampledFrom([]int{2, 3, 4}).Draw(rt, "ceilingBins")) * chain.StakeUnit)
+				tx := chain.SignTx(w.Spec.ChainID, &govTypes.MsgChangeParam{FromAddress: chain.Addr(w.Spec.DAOOwner), ParamKey: "pos/ServicerStakeWeightCeiling", ParamVal: val}, chain.DefaultFee, "", w.NextEntropy(), w.Spec.DAOOwner)
+				r := n.RunBlock(chain.Block{DT: time.Second, Proposer: chain.Addr(w.Nodes[0]), Txs: [][]byte{tx}})
+				c.Opf("block{changeParam pos/ServicerStakeWeightCeiling=%s by dao -> %d}", val, r.Txs[0].Code)
+				if r.Txs[0].Code == 0 {
+					c.Label("weighting-ceiling-raised-before-export")
+				}
+				want = n.StateView()
+			}
 			exported, err := n.App.ExportAppState(n.Height, false, nil)
 			if err != nil {
 				c.Violation("C43/export/failed", "ExportAppState(%d) failed: %v", n.Height, err)
@@ -417,6 +430,29 @@ func TestC43(t *testing.T) {
 					c.Violation("C43/export/nodes-genesis-not-parseable", "exported pos genesis does not parse: %v", err)
 					return
 				}
+				// parameters, one by one, against the raw parameter store of the exporting node (not against the keepers'
+				// GetParams aggregate, which is what the export itself is built from)
+				rawParams := map[string]string{}
+				for _, kv := range n.Dump()["params"] {
+					rawParams[string(kv.K)] = string(sdk.MustSortJSON(kv.V))
+				}
+				cmpParams := func(subspace string, pairs sdk.ParamSetPairs) {
+					for _, pr := range pairs {
+						raw, stored := rawParams[subspace+"/"+string(pr.Key)]
+						if !stored {
+							continue // a parameter of a feature that never activated on this chain
+						}
+						bz, err := app.Codec().MarshalJSON(reflect.ValueOf(pr.Value).Elem().Interface())
+						if err != nil {
+							continue
+						}
+						c.AddExtra("exported_parameters_compared", 1)
+						if got := string(sdk.MustSortJSON(bz)); got != raw {
+							c.Violation("C43/export/parameter-differs-in-exported-json", "exported %s genesis carries %s = %s, the exporting node's parameter store holds %s", subspace, pr.Key, got, raw)
+						}
+					}
+				}
+				cmpParams("pos", (&ng.Params).ParamSetPairs())
 				gotN := map[string]string{}
 				for _, v := range ng.Validators {
 					gotN[v.Address.String()] = js(v)
